@@ -1,9 +1,14 @@
 #!/bin/bash
-# MANIFEST.setup_cmd: offline build of the harness (release variant with hooks on) from files on disk.
-# Other variants (chk/asan/tsan/miri) are built on demand by the thorough tier.
+# MANIFEST.setup_cmd: offline build of the harness binaries of every claimed check (release variant, hooks on)
+# from files on disk. Other variants (chk/asan/tsan/miri) are built on demand by the thorough tier.
 set -e
-cd "$(dirname "$0")/harness"
+here="$(cd "$(dirname "$0")" && pwd)"
+cd "$here/harness"
 export CARGO_NET_OFFLINE=true
 export RUSTFLAGS="--cfg noodles_verif"
-export CARGO_TARGET_DIR="$(dirname "$PWD")/target/rel"
-cargo build --release --offline --workspace 2>&1 | tail -3
+export CARGO_TARGET_DIR="$here/target/rel"
+pkgs=$(python3 -c "
+import json
+m = json.load(open('$here/MANIFEST.json'))
+print(' '.join('-p ' + c['property_id'].lower() for c in m['checks']))")
+cargo build --release --offline $pkgs 2>&1 | tail -3
